@@ -143,17 +143,20 @@ class Harness:
             if v.bucket in self.done_buckets:
                 self.dups[v.bucket] = self.dups.get(v.bucket, 0) + 1
                 continue
-            if self.target is None and raise_on_violation:
+            shrinkable = not v.bucket.startswith("hang")  # every attempt on a hanging case costs the stall time
+            if self.target is None and raise_on_violation and shrinkable:
                 self.target = v.bucket
-            if not raise_on_violation or v.bucket == self.target:
+            if not raise_on_violation or v.bucket == self.target or not shrinkable:
                 rec = {"bucket": v.bucket, "msg": v.msg, "key": v.key, "case": case, "detail": v.detail}
                 size = len(json.dumps(case, default=str))
                 old = self.failures.get(v.bucket)
                 if old is None or size <= old["size"]:
                     rec["size"] = size
                     self.failures[v.bucket] = rec
-                if raise_on_violation and to_raise is None:
+                if raise_on_violation and to_raise is None and shrinkable:
                     to_raise = v
+                if not shrinkable:
+                    self.done_buckets.add(v.bucket)
             else:
                 self.dups[v.bucket] = self.dups.get(v.bucket, 0) + 1
         if to_raise is not None:
